@@ -17,6 +17,9 @@ import SSEPyVerif.Model.Schemes.Chain
 import SSEPyVerif.Model.Schemes.PiPtr
 import SSEPyVerif.Model.Schemes.Levels
 import SSEPyVerif.Model.Schemes.SSE2
+import SSEPyVerif.Model.Schemes.SSE1
+import SSEPyVerif.Model.Schemes.DP17
+import SSEPyVerif.Model.Schemes.Pi2Lev
 namespace SSEPy.Driver
 open SSEPy.Proto SSEPy.Sch
 
@@ -111,6 +114,37 @@ def sse2Ops (cfg : SSE2Cfg) : SchemeOps where
     | [K1, _] => do pure ((← SSE2.token cfg lv K1 w).map natToBytesMin)
     | _ => throw .typeError
 
+def sse1Ops (cfg : SSE1Cfg) : SchemeOps where
+  keyGen t := SSE1.keyGen cfg t
+  setup lv key db t := do
+    let (e, t') ← SSE1.setup cfg lv key db t
+    pure ({ dump := "A " ++ showList showBytes e.A ++ " | T " ++ showTable e.T,
+            search := fun lv tk => do SSE1.search cfg lv e (← tok2 tk) }, t')
+  token lv key w := do
+    let (a, b) ← SSE1.token cfg lv key w
+    pure [a, b]
+
+def dp17Ops (cfg : DP17Cfg) : SchemeOps where
+  keyGen t := DP17.keyGen cfg t
+  setup lv key db t := do
+    let (e, t') ← DP17.setup cfg lv key db t
+    pure ({ dump := "HT " ++ showTable e.HT ++ " | A " ++
+              ";".intercalate (e.A.map fun p => toString p.1 ++ "=" ++ showList showBytes p.2),
+            search := fun lv tk => DP17.search cfg lv e tk }, t')
+  token lv key w := DP17.token cfg lv key w
+
+def pi2LevOps (cfg : Pi2LevCfg) : SchemeOps where
+  keyGen t := do let (k, t') ← Pi2Lev.keyGen cfg t; pure ([k], t')
+  setup lv key db t := do
+    let K ← key1 key
+    let (e, t') ← Pi2Lev.setup cfg lv K db t
+    pure ({ dump := "D " ++ showTable e.D ++ " | A " ++ showCells e.A,
+            search := fun lv tk => do Pi2Lev.search cfg lv e (← tok2 tk) }, t')
+  token lv key w := do
+    let K ← key1 key
+    let (a, b) ← Pi2Lev.token cfg lv K w
+    pure [a, b]
+
 def buildScheme (name : String) (raw : RawCfg) : Except Err SchemeOps :=
   match name with
   | "PiBas" => do pure (chainOps (← PiBas.cfgBuild raw))
@@ -118,6 +152,9 @@ def buildScheme (name : String) (raw : RawCfg) : Except Err SchemeOps :=
   | "PiPtr" => do pure (piPtrOps (← PiPtr.cfgBuild raw))
   | "CT14" => do pure (ct14Ops (← CT14.cfgBuild raw))
   | "SSE2" => do pure (sse2Ops (← SSE2.cfgBuild raw))
+  | "SSE1" => do pure (sse1Ops (← SSE1.cfgBuild raw))
+  | "DP17" => do pure (dp17Ops (← DP17.cfgBuild raw))
+  | "Pi2Lev" => do pure (pi2LevOps (← Pi2Lev.cfgBuild raw))
   | "ANSS16" => do pure (anssOps (← ANSS16.cfgBuild raw))
   | _ => .error .other
 
